@@ -6,7 +6,7 @@ from . import c01
 
 PROP = "C06"
 PROP_FILE = "PwVerif/Props/C06.lean"
-DRIVER = "Driver/C01.lean"
+DRIVER = "Driver/C06.lean"
 THEOREMS = [
     "C06_no_downstream",
     "C06_outputs_kept",
@@ -16,6 +16,15 @@ THEOREMS = [
     "C06_reported_partial",
     "C06_exec_failure_unreported_witness",
     "C06_abort_leaves_running_witness",
+    "C06_nest_no_downstream",
+    "C06_nest_reported",
+    "C06_nest_nobody_running",
+    "C06_nest_failed_exactly",
+    "C06_nest_outputs_kept",
+    "C06_nest_cause",
+    "C06_nest_class_independent",
+    "C06_nest_progress",
+    "C06_nest_flat",
 ]
 RULE = (
     "random DAGs (2..N term nodes) x every kind of fault position (starting node, inner node, two at once) x "
@@ -47,6 +56,24 @@ def gen_cases(rng, tier):
     for _ in range(20 if tier == "quick" else 100):
         yield {"kind": "single", "suppress": rng.random() < 0.7, "prerun": rng.random() < 0.7,
                "listener": True}
+    # nested macros (depth 0..3) x exception classes, faults at every depth, executor siblings at every level
+    from . import nodes_c06 as N
+
+    quick = tier == "quick"
+    for depth, count in ((0, 40 if quick else 400), (1, 70 if quick else 900), (2, 60 if quick else 900),
+                         (3, 30 if quick else 500)):
+        for _ in range(count):
+            yield gen_nest_case(rng, depth, N.EXCEPTIONS, n_max=4 if depth < 3 else 3)
+    # every exception class at a starting / signal-started position, locally and on the executor, depth 0..2
+    sweep = list(class_sweep(N.EXCEPTIONS, (0, 1, 2), ("start", "mid"), (False, True)))
+    if quick:
+        # all classes signal-started and local (where the loop's own exception handling is in the way) at depth 0/1,
+        # a seeded sample of the rest
+        must = [c for c in sweep if not c["exec"] or c["exec"] == ["3"]]
+        must = [c for c in must if len(next(iter(c["fails"]))) <= 3 and next(iter(c["fails"])).endswith("1")]
+        rest = [c for c in sweep if c not in must]
+        sweep = must + rng.sample(rest, 40)
+    yield from sweep
 
 
 def corpus():
@@ -58,6 +85,18 @@ def corpus():
     yield {"kind": "single", "suppress": True, "prerun": True, "listener": True}
     yield {"kind": "dag", "n": 3, "order": [0, 1, 2], "slots": {"0": [[], [], []], "1": [[0], [], []], "2": [[1], [], []]},
            "exec": [], "fails": [1], "mode": "ctl", "choices": [], "prerun": True}
+    # nested: the three-level run of Props/C06.lean (slow sibling in flight, macros not starting, leaf raises KeyError)
+    inner = {"n": 3, "order": [0, 1, 2], "slots": {"0": ["a", [], []], "1": [[0], [], []], "2": [[1], [], []]},
+             "kids": {}, "gid": {"0": 3, "1": 4, "2": 5}, "ret": 2}
+    mid = {"n": 3, "order": [0, 1, 2], "slots": {"0": [[], [], []], "1": [[0], [], []], "2": [[1], [], []]},
+           "kids": {"1": inner}, "gid": {"0": 2, "2": 6}, "ret": 2}
+    top = {"n": 4, "order": [0, 1, 2, 3], "slots": {"0": [[], [], []], "1": [[], [], []], "2": [[1], [], []],
+                                                     "3": [[2], [], []]},
+           "kids": {"2": mid}, "gid": {"0": 0, "1": 1, "3": 7}, "ret": 3}
+    yield {"kind": "nest", "prog": top, "fails": {"2.1.1": "KeyError"}, "exec": ["0"], "mode": "ctl", "choices": [],
+           "prerun": False}
+    yield {"kind": "nest", "prog": top, "fails": {"2.1.1": "IndexError"}, "exec": ["0", "2.1"], "mode": "ctl",
+           "choices": [], "prerun": True}
 
 
 def _single(case):
@@ -191,6 +230,18 @@ def _run_once_with_chain(case):
 
 
 def run_impl(case):
+    if case["kind"] == "nest":
+        r = _run_nest(case)
+        hit = [l for l in case["fails"] if r["calls"][l] > 0]
+        depth = max((l.count(".") for l in hit), default=0)
+        stats = {"nest": 1, "fault_hit": 1 if hit else 0, f"outcome:{r['outcome']}": 1,
+                 f"nest_depth_of_fault:{depth}": 1 if hit else 0, f"nest_depth:{_depth(case['prog'])}": 1,
+                 "fault_on_exec": sum(1 for l in hit if l in case["exec"]),
+                 "macro_on_exec": sum(1 for l in case["exec"] if l not in r["calls"]),
+                 "late_completions": len(r["trace"]), "prerun": int(bool(case.get("prerun"))),
+                 "several_faults": int(len(hit) > 1),
+                 **{f"exc:{case['fails'][l]}": 1 for l in hit}}
+        return {"obs": _nest_obs(case, r), "r": r, "runs": [r], "stats": stats}
     if case["kind"] == "single":
         r = _single(case)
         return {"obs": [str(sorted(r.items()))], "r": r, "runs": [r],
@@ -253,12 +304,22 @@ def nontrivial(case, impl):
 
 
 def model_input(case, impl):
+    if case["kind"] == "nest":
+        return _nest_model_input(case, impl["r"])
     if case["kind"] != "dag" or case.get("prerun") or case.get("force_starters"):
         return ["n 0", "run"]
     return c01._model_input_one(case, impl["r"])
 
 
 def diff(case, impl, model):
+    if case["kind"] == "nest":
+        mine = impl["obs"]
+        if list(mine) == list(model):
+            return None
+        for k, (a, b) in enumerate(zip(mine, model)):
+            if a != b:
+                return {"index": k, "impl": a, "model": b, "trace": impl["r"]["trace"]}
+        return {"index": min(len(mine), len(model)), "impl": f"<{len(mine)} lines>", "model": f"<{len(model)} lines>"}
     if case["kind"] != "dag" or case.get("prerun") or case.get("force_starters"):
         return None
     return c01._diff_one(case, impl["obs"], model)
@@ -282,6 +343,8 @@ def _downstream(case, roots):
 def oracle(case, impl):
     r = impl["r"]
     fails = []
+    if case["kind"] == "nest":
+        return _nest_oracle(case, r)
     if case["kind"] == "single":
         sup = case["suppress"]
         s = lambda c: {"clause": c, "kind": "single", "suppress": sup}  # noqa: E731
@@ -344,6 +407,9 @@ def oracle(case, impl):
 
 
 def shrink_candidates(case):
+    if case["kind"] == "nest":
+        yield from _nest_shrink(case)
+        return
     if case["kind"] != "dag":
         return
     for c in c01.shrink_candidates(case):
@@ -354,3 +420,538 @@ def shrink_candidates(case):
     if len(case["fails"]) > 1:
         for f in case["fails"]:
             yield {**case, "fails": [x for x in case["fails"] if x != f]}
+
+
+# =====================================================================================================
+# nested macros x exception classes (kind "nest")
+# =====================================================================================================
+#
+# case = {"kind": "nest", "prog": prog, "fails": {"<leaf path>": "<key of nodes_c06.FAMILY>"},
+#         "exec": ["<path of a leaf or macro handed to the controllable executor>"], "mode": "ctl"|"ctl-cloudpickle",
+#         "choices": [...], "prerun": bool}
+# prog  = {"n", "order", "slots": {"i": [slot, slot, slot]}, "kids": {"i": prog}, "gid": {"i": term index}, "ret": i}
+# paths are child indices from the workflow down, "2.1.0"; the workflow itself is "r".
+
+
+def _walk(prog, path=()):
+    """(path, prog) of every composite, outermost first, children in index order"""
+    yield path, prog
+    for i in sorted(int(k) for k in prog["kids"]):
+        yield from _walk(prog["kids"][str(i)], path + (i,))
+
+
+def _pstr(path):
+    return ".".join(map(str, path)) if path else "r"
+
+
+def _ppath(s):
+    return () if s == "r" else tuple(int(x) for x in s.split("."))
+
+
+def _leaves(prog, path=()):
+    for i in range(prog["n"]):
+        if str(i) in prog["kids"]:
+            yield from _leaves(prog["kids"][str(i)], path + (i,))
+        else:
+            yield path + (i,)
+
+
+def _sib_ups(prog, i):
+    return [j for sl in prog["slots"][str(i)] if not isinstance(sl, str) for j in sl]
+
+
+def _gen_prog(rng, depth, budget, n_max, p_macro, is_macro):
+    """a composite body; `budget` = [leaves still available]"""
+    n = rng.randint(2 if depth else 2, n_max)
+    order, slots = c01.gen_dag(rng, n, 0.6)
+    kids, gid = {}, {}
+    # which children are macros: bias towards children WITH upstream (signal-started) but allow starters
+    for i in range(n):
+        if depth > 0 and budget[0] > 6 and rng.random() < p_macro:
+            kids[str(i)] = _gen_prog(rng, depth - 1, budget, max(2, n_max - 1), p_macro * 0.8, True)
+    for i in range(n):
+        if str(i) not in kids:
+            gid[str(i)] = None
+            budget[0] -= 1
+    if is_macro:
+        # link each of the macro's inputs to at most one free slot
+        free = [(i, k) for i in range(n) for k in range(3) if not slots[str(i)][k]]
+        rng.shuffle(free)
+        for name, (i, k) in zip("abc", free[: rng.randint(0, 3)]):
+            slots[str(i)][k] = name
+    used = {j for i in range(n) for j in _sib_ups({"slots": slots}, i)}
+    sinks = [i for i in range(n) if i not in used]
+    return {"n": n, "order": order, "slots": slots, "kids": kids, "gid": gid, "ret": rng.choice(sinks)}
+
+
+def _number(prog):
+    k = 0
+    for _path, p in _walk(prog):
+        for i in range(p["n"]):
+            if str(i) not in p["kids"]:
+                p["gid"][str(i)] = k
+                k += 1
+    return k
+
+
+def _depth(prog):
+    return 1 + max((_depth(k) for k in prog["kids"].values()), default=-1)
+
+
+def gen_nest_case(rng, depth, classes, n_max=4, base=False):
+    from . import nodes_c06 as N
+
+    while True:
+        budget = [40]
+        prog = _gen_prog(rng, depth, budget, n_max, 0.45, False)
+        if _number(prog) <= N.N_TERM and (depth == 0 or prog["kids"]):
+            break
+    leaves = [_pstr(p) for p in _leaves(prog)]
+    comps = [_pstr(p) for p, _ in _walk(prog) if p]
+    # failing leaves: prefer deep ones, sometimes two or three
+    k = rng.choice([1, 1, 1, 1, 2, 2, 3])
+    deep = sorted(leaves, key=lambda s: -s.count("."))
+    pool = deep[: max(2, len(deep) // 2)] if rng.random() < 0.6 else leaves
+    fl = rng.sample(pool, min(k, len(pool)))
+    fails = {l: rng.choice(classes) for l in fl}
+    ex = [l for l in leaves if rng.random() < 0.35] + [c for c in comps if rng.random() < 0.25]
+    return {"kind": "nest", "prog": prog, "fails": fails, "exec": sorted(ex),
+            "mode": rng.choice(["ctl", "ctl", "ctl-cloudpickle"]),
+            # 0 = "nobody completes at this emission": biased towards late completions
+            "choices": [rng.choice([0, 0, 0, 1, 2, 3]) for _ in range(60)],
+            "prerun": rng.random() < 0.3, **({"base": True} if base else {})}
+
+
+def _chain_prog(depth, pos):
+    """a fixed small shape: chain a -> X -> z at every level, X = the next level (or the failing leaf);
+    pos: 'start' (the failing leaf is a starting node of the innermost composite) | 'mid' (signal-started)"""
+    def level(d):
+        if d == 0:
+            if pos == "start":
+                return {"n": 2, "order": [0, 1], "slots": {"0": [[], [], []], "1": [[0], [], []]}, "kids": {},
+                        "gid": {"0": None, "1": None}, "ret": 1}
+            return {"n": 3, "order": [0, 1, 2], "slots": {"0": [[], [], []], "1": [[0], [], []], "2": [[1], [], []]},
+                    "kids": {}, "gid": {"0": None, "1": None, "2": None}, "ret": 2}
+        return {"n": 4, "order": [0, 1, 2, 3],
+                "slots": {"0": [[], [], []], "1": [[0], [], []], "2": [[1], [], []], "3": [[], [], []]},
+                "kids": {"1": level(d - 1)}, "gid": {"0": None, "2": None, "3": None}, "ret": 2}
+    prog = level(depth)
+    _number(prog)
+    return prog
+
+
+def class_sweep(classes, depths, positions, where):
+    """every class x depth x position of the failing leaf x (local | on the executor), a sibling in flight"""
+    for key in classes:
+        for depth in depths:
+            for pos in positions:
+                for on_exec in where:
+                    prog = _chain_prog(depth, pos)
+                    leaf = "1." * depth + ("0" if pos == "start" else "1")
+                    ex = ([leaf] if on_exec else []) + (["3"] if depth else [])
+                    yield {"kind": "nest", "prog": prog, "fails": {leaf: key}, "exec": ex, "mode": "ctl",
+                           "choices": [], "prerun": False}
+
+
+def _build_nest(case):
+    from pyiron_workflow import Workflow
+    from pyiron_workflow.nodes.composite import Composite
+
+    from . import nodes_c06 as N
+
+    N.reset()
+    wf = Workflow("w", autoload=None)
+    N.populate(wf, case["prog"])
+    wf.use_cache = False
+    nodes = {(): wf}
+
+    def rec(owner, prog, path):
+        for i in range(prog["n"]):
+            ch = owner.children[f"n{i}"]
+            nodes[path + (i,)] = ch
+            ch.use_cache = False
+            if str(i) in prog["kids"]:
+                rec(ch, prog["kids"][str(i)], path + (i,))
+
+    rec(wf, case["prog"], ())
+    return wf, nodes
+
+
+def _node_path(node):
+    # "/w/n2/n1" -> (2, 1)
+    parts = node.full_label.strip("/").split("/")[1:]
+    return tuple(int(x[1:]) for x in parts)
+
+
+class _Sched:
+    """execsim.Scheduler with a tolerant idle point: an idle `sleep` with nothing outstanding is just a sleep
+    (the real loop re-tests its condition); a loop that keeps sleeping runs into the step budget"""
+
+    def __new__(cls, choices, ident):
+        from .execsim import Scheduler, Stuck
+
+        class S(Scheduler):
+            spurious = 0
+
+            def at_sleep(self, *_a):
+                if not self.jobs:
+                    self.points += 1
+                    self.spurious += 1
+                    if self.spurious > 50 or self.points > self.max_points:
+                        raise Stuck("idle with nothing outstanding")
+                    return
+                return Scheduler.at_sleep(self, *_a)
+
+        return S(choices, ident=ident)
+
+
+def _chain_tokens(exc, N, gid_path):
+    """the cause chain the caller sees, in the driver's vocabulary"""
+    from pyiron_workflow.nodes.composite import FailedChildError
+
+    if exc is None:
+        return "-"
+    toks, seen = [], 0
+    by_obj = {id(e): g for g, e in N.RAISED.items()}
+    while exc is not None and seen < 12:
+        seen += 1
+        if id(exc) in by_obj:
+            toks.append("orig:" + _pstr(gid_path[by_obj[id(exc)]]))
+            return " ".join(toks)
+        if type(exc) is FailedChildError:
+            toks.append("fc")
+        else:
+            toks.append("other:" + type(exc).__name__)
+        exc = exc.__cause__ if exc.__cause__ is not None else (None if exc.__suppress_context__ else exc.__context__)
+    toks.append("none")
+    return " ".join(toks)
+
+
+def _run_nest(case):
+    import pyiron_workflow.nodes.composite as comp
+
+    from . import nodes_c06 as N
+    from .execsim import CtlExecutor, Instrument, Stuck, term_str
+
+    prog = case["prog"]
+    wf, nodes = _build_nest(case)
+    composites = [p for p, _ in _walk(prog)]
+    progs = dict(_walk(prog))
+    gid_path = {}
+    for p, pr in progs.items():
+        for i, g in pr["gid"].items():
+            gid_path[g] = p + (int(i),)
+    leaf_gid = {v: k for k, v in gid_path.items()}
+    before = None
+    if case.get("prerun"):
+        wf.run()
+        before = {p: term_str(nodes[p].outputs.o.value) for p in leaf_gid}
+        N.CALL_LOG.clear()
+        N.EPOCH[0] = 1
+    for l, key in case["fails"].items():
+        N.EXC[leaf_gid[_ppath(l)]] = key
+    sched = _Sched(list(case["choices"]), ident=lambda owner: _pstr(_node_path(owner)))
+    exe = CtlExecutor(sched, case.get("mode", "ctl"))
+    exe_plain = CtlExecutor(sched, "ctl")
+    for l in case["exec"]:
+        p = _ppath(l)
+        nodes[p].executor = exe if p in leaf_gid else exe_plain
+    wiring = {}
+
+    def observe(c):
+        p = _node_path(c) if c is not wf else ()
+        pr = progs[p]
+        kids = {i: c.children[f"n{i}"] for i in range(pr["n"])}
+        return {"starters": [int(n.label[1:]) for n in c.starting_nodes],
+                "down": {i: [int(x.owner.label[1:]) for x in kids[i].signals.output.ran.connections] for i in kids}}
+
+    outcome, exc = "ok", None
+    with Instrument(sched):
+        orig_on_run = comp.Composite._on_run
+
+        def on_run(self_):
+            p = () if self_ is wf else _node_path(self_)
+            if p not in wiring:
+                wiring[p] = observe(self_)
+            return orig_on_run(self_)
+
+        comp.Composite._on_run = on_run
+        try:
+            wf.run()
+        except Stuck as e:
+            outcome = f"stuck:{e}"
+        except BaseException as e:  # noqa: BLE001
+            outcome = f"raised:{type(e).__name__}"
+            exc = e
+        finally:
+            comp.Composite._on_run = orig_on_run
+    for p in composites:
+        if p not in wiring:  # a macro that never ran: its wiring is static
+            wiring[p] = observe(nodes[p])
+    calls = list(N.CALL_LOG)
+    r = {
+        "outcome": outcome,
+        "chain": _chain_tokens(exc, N, gid_path),
+        "chain_types": c06_chain(exc),
+        "raised_is_orig": {_pstr(gid_path[g]): any(e is x for x in _chain_objs(exc)) for g, e in N.RAISED.items()},
+        "raised_types": {_pstr(gid_path[g]): type(e).__name__ for g, e in N.RAISED.items()},
+        "trace": list(sched.trace), "spurious_sleeps": sched.spurious,
+        "wiring": {_pstr(p): w for p, w in wiring.items()},
+        "flags": {_pstr(p): (bool(n.running), bool(n.failed)) for p, n in nodes.items()},
+        "running_children": {_pstr(p): [int(l[1:]) for l in getattr(nodes[p], "running_children", [])] for p in composites},
+        "exec_log": {_pstr(p): [int(l[1:]) for l in getattr(nodes[p], "provenance_by_execution", [])] for p in composites},
+        "done_log": {_pstr(p): [int(l[1:]) for l in getattr(nodes[p], "provenance_by_completion", [])] for p in composites},
+        "outs": {_pstr(p): term_str(nodes[p].outputs.o.value) for p in leaf_gid},
+        "before": None if before is None else {_pstr(p): v for p, v in before.items()},
+        "calls": {_pstr(p): calls.count(g) for p, g in leaf_gid.items()},
+        "late_jobs": [sched.ident(j[0]) for j in sched.jobs],
+    }
+    # what the outstanding jobs do when they complete after the run has returned
+    n_late = sched.drain() if sched.jobs else 0
+    r["calls_after_late"] = {_pstr(p): N.CALL_LOG.count(g) for p, g in leaf_gid.items()} if n_late else None
+    return r
+
+
+def _chain_objs(exc):
+    out, seen = [], 0
+    while exc is not None and seen < 12:
+        out.append(exc)
+        exc = exc.__cause__ or exc.__context__
+        seen += 1
+    return out
+
+
+def c06_chain(exc):
+    return [type(e).__name__ for e in _chain_objs(exc)]
+
+
+def _nest_obs(case, r):
+    """the implementation's observations in the nested driver's format"""
+    lines = ["wf true"]
+    progs = dict(_walk(case["prog"]))
+    for p, pr in progs.items():
+        tag = f"N {_pstr(p)}"
+        ps = _pstr(p)
+        n = pr["n"]
+        done = r["done_log"][ps]
+        ex = r["exec_log"][ps]
+        if p:
+            over = p[-1] in r["done_log"][_pstr(p[:-1])]
+        else:
+            over = not r["outcome"].startswith("stuck")
+        # a macro that was never started keeps the logs of ... nothing: it has none
+        started = (not p) or p[-1] in r["exec_log"][_pstr(p[:-1])]
+        if not started:
+            done, ex = [], []
+
+        def child(i):
+            return _pstr(p + (i,))
+
+        def st(i):
+            run, failed = r["flags"][child(i)]
+            if run:
+                return "out"
+            if failed:
+                return "failed"
+            return "done" if (started and i in done) else "idle"
+
+        def calls(i):
+            if str(i) in pr["kids"]:
+                return ex.count(i)
+            c = r["calls"][child(i)]
+            return c + (1 if r["flags"][child(i)][0] and c == 0 else 0)
+
+        def cls(i):
+            if str(i) in pr["kids"]:
+                return "-"
+            v = r["outs"][child(i)]
+            if v == "ND":
+                return "ND"
+            return "prev" if r["before"] is not None and v == r["before"][child(i)] else "new"
+
+        lines += [
+            f"{tag} over {'true' if over else 'false'}",
+            f"{tag} failed {'true' if r['flags'][ps][1] else 'false'}",
+            f"{tag} exec [{','.join(map(str, ex))}]",
+            f"{tag} done [{','.join(map(str, done))}]",
+            f"{tag} st " + " ".join(f"{i}:{st(i)}" for i in range(n)),
+            f"{tag} calls " + " ".join(f"{i}:{calls(i)}" for i in range(n)),
+            f"{tag} cls " + " ".join(f"{i}:{cls(i)}" for i in range(n)),
+            f"{tag} running [{','.join(map(str, r['running_children'][ps] if started else []))}]",
+        ]
+    lines.append("chain " + r["chain"])
+    lines.append("status " + ("ok" if not r["outcome"].startswith("stuck") else r["outcome"]))
+    return lines
+
+
+def _nest_model_input(case, r):
+    lines = []
+    for p, pr in _walk(case["prog"]):
+        ps = _pstr(p)
+        n = pr["n"]
+        lines.append(f"comp {ps}")
+        lines.append(f"n {n}")
+        for i in range(n):
+            for sl in pr["slots"][str(i)]:
+                ups = [] if isinstance(sl, str) else list(reversed(sl))  # newest first; own inputs are values
+                lines.append(f"slot {i} " + " ".join(map(str, ups)))
+        w = r["wiring"][ps]
+        for j in range(n):
+            lines.append(f"down {j} " + " ".join(map(str, w["down"].get(j, w["down"].get(str(j), [])))))
+        lines.append("starters " + " ".join(map(str, w["starters"])))
+        lines.append("exec " + " ".join(str(i) for i in range(n) if _pstr(p + (i,)) in case["exec"]))
+        lines.append("fails " + " ".join(str(i) for i in range(n) if _pstr(p + (i,)) in case["fails"]))
+        rank = {}
+
+        def rk(i):
+            if i not in rank:
+                rank[i] = 1 + max((rk(j) for j in _sib_ups(pr, i)), default=-1)
+            return rank[i]
+
+        lines.append("rank " + " ".join(str(rk(i)) for i in range(n)))
+        lines.append("kids " + " ".join(sorted(pr["kids"], key=int)))
+        if case.get("prerun"):
+            lines.append("prev")
+    lines.append("nsched " + " ".join(r["trace"]))
+    lines.append("nrun")
+    return lines
+
+
+def _nest_downstream(pr, roots):
+    out, changed = set(), True
+    while changed:
+        changed = False
+        for i in range(pr["n"]):
+            if i in out or i in roots:
+                continue
+            if set(_sib_ups(pr, i)) & (out | set(roots)):
+                out.add(i)
+                changed = True
+    return out
+
+
+def _nest_oracle(case, r):
+    """the statement, clause by clause, on what the real objects showed — at every level of the nesting"""
+    from . import nodes_c06 as N
+
+    fails = []
+    progs = dict(_walk(case["prog"]))
+    hit = [l for l in case["fails"] if r["calls"][l] > 0]
+    depth = max((l.count(".") for l in hit), default=0)
+    on_exec = any(l in case["exec"] for l in hit)
+    base_only = any(case["fails"][l] in N.BASE_ONLY for l in hit)
+    nested = depth > 0
+
+    def sig(c, **kw):
+        return {"clause": c, "kind": "nest", "nested": nested, "failing_on_exec": on_exec,
+                **({"base_exception": True} if base_only else {}), **kw}
+
+    if r["outcome"].startswith("stuck"):
+        return [{"clause": "run-does-not-terminate", "detail": r["outcome"], "signature": sig("terminate")}]
+    if not hit:
+        return fails
+    # (a) the error reaches the caller of the outermost run, carrying the original exception
+    if not r["outcome"].startswith("raised:"):
+        fails.append({"clause": "error-does-not-reach-caller",
+                      "detail": f"run returned normally; failing nodes {hit}", "signature": sig("reaches-caller")})
+    elif len(hit) == 1:
+        l = hit[0]
+        key = case["fails"][l]
+        if not r["raised_is_orig"].get(l):
+            fails.append({"clause": "original-exception-lost",
+                          "detail": f"{key} raised by {l} is not in the cause chain {r['chain_types']}",
+                          "signature": sig("cause", exc_is_lookup=issubclass(N.exc_type(key), LookupError))})
+    # (b) statuses: the failing nodes and every composite above them failed and not running; nobody else failed
+    expect_failed = set()
+    for l in hit:
+        p = _ppath(l)
+        for k in range(len(p) + 1):
+            expect_failed.add(_pstr(p[:k]))
+    for x in sorted(expect_failed):
+        run, failed = r["flags"][x]
+        if run or not failed:
+            what = "failing-node-flags" if x in hit else "composite-flags"
+            fails.append({"clause": what, "detail": f"{x}: running={run} failed={failed}",
+                          "signature": sig("node-flags" if x in hit else "composite-flags")})
+    for x, (run, failed) in r["flags"].items():
+        if failed and x not in expect_failed:
+            fails.append({"clause": "unrelated-node-marked-failed", "detail": f"{x} failed; failing nodes {hit}",
+                          "signature": sig("nobody-else")})
+    # (c) no node is left running, at any level, when the error reaches the caller
+    left = [x for x, (run, _f) in r["flags"].items() if run]
+    rc = {x: v for x, v in r["running_children"].items() if v}
+    if left or rc or r["late_jobs"]:
+        fails.append({"clause": "node-left-running",
+                      "detail": f"running={left} running_children={rc} jobs still out={r['late_jobs']}"
+                                + (f" calls after their late completion={r['calls_after_late']}" if r["calls_after_late"] else ""),
+                      "signature": sig("left-running")})
+    # (d) the failing node's outputs keep their previous values
+    for l in hit:
+        expect = r["before"][l] if r["before"] is not None else "ND"
+        if r["outs"][l] != expect:
+            fails.append({"clause": "outputs-not-kept", "detail": f"{l}: {r['outs'][l]} vs previous {expect}",
+                          "signature": sig("outputs-kept")})
+    # (e) nothing that depends on the completion of a failed node / failed composite executes — at any level
+    for x in sorted(expect_failed - {"r"}):
+        p = _ppath(x)
+        pr = progs[p[:-1]]
+        for i in sorted(_nest_downstream(pr, [p[-1]])):
+            c = p[:-1] + (i,)
+            inside = [l for l in r["calls"] if (l == _pstr(c) or l.startswith(_pstr(c) + ".")) and r["calls"][l] > 0]
+            started = i in r["exec_log"][_pstr(p[:-1])]
+            if inside or started:
+                fails.append({"clause": "downstream-of-failure-executed",
+                              "detail": f"{_pstr(c)} is downstream of failed {x}: started={started} calls inside={inside}",
+                              "signature": sig("no-downstream")})
+    return fails
+
+
+def _nest_shrink(case):
+    prog = case["prog"]
+    if len(case["fails"]) > 1:
+        for l in case["fails"]:
+            yield {**case, "fails": {k: v for k, v in case["fails"].items() if k != l}}
+    for l in case["exec"]:
+        yield {**case, "exec": [x for x in case["exec"] if x != l]}
+    if case.get("prerun"):
+        yield {**case, "prerun": False}
+    if case["choices"]:
+        yield {**case, "choices": []}
+    if case.get("mode") != "ctl":
+        yield {**case, "mode": "ctl"}
+    # a macro that contains no failing leaf becomes a function node
+    import copy
+
+    for p, pr in _walk(prog):
+        for k in list(pr["kids"]):
+            sub = _pstr(p + (int(k),))
+            if any(l == sub or l.startswith(sub + ".") for l in case["fails"]):
+                continue
+            new = copy.deepcopy(prog)
+            tgt = new
+            for i in p:
+                tgt = tgt["kids"][str(i)]
+            del tgt["kids"][k]
+            tgt["gid"][k] = None
+            _number(new)
+            yield {**case, "prog": new, "exec": [x for x in case["exec"] if not x.startswith(sub + ".")]}
+    # drop a sink leaf nobody depends on (highest index only, to keep indices stable)
+    for p, pr in _walk(prog):
+        i = pr["n"] - 1
+        if pr["n"] <= 2 or str(i) in pr["kids"] or pr["ret"] == i:
+            continue
+        if any(i in _sib_ups(pr, j) for j in range(pr["n"])):
+            continue
+        me = _pstr(p + (i,))
+        if me in case["fails"]:
+            continue
+        new = copy.deepcopy(prog)
+        tgt = new
+        for k in p:
+            tgt = tgt["kids"][str(k)]
+        tgt["n"] -= 1
+        tgt["order"] = [x for x in tgt["order"] if x != i]
+        del tgt["slots"][str(i)]
+        del tgt["gid"][str(i)]
+        _number(new)
+        yield {**case, "prog": new, "exec": [x for x in case["exec"] if x != me]}
